@@ -49,6 +49,35 @@ func EmptyConfig(group curve.Curve) *Config {
 	}
 }
 
+// Validate checks that the config contains everything a protocol run relies on, so that an incomplete
+// config is refused when a session is started, rather than crashing the session later on.
+func (r *Config) Validate() error {
+	if r == nil {
+		return errors.New("config is nil")
+	}
+	if r.PrivateShare == nil || r.PrivateShare.IsZero() {
+		return errors.New("config: private share is missing or zero")
+	}
+	if r.PublicKey == nil || r.PublicKey.IsIdentity() {
+		return errors.New("config: public key is missing")
+	}
+	if r.VerificationShares == nil || len(r.VerificationShares.Points) == 0 {
+		return errors.New("config: verification shares are missing")
+	}
+	for id, share := range r.VerificationShares.Points {
+		if share == nil {
+			return fmt.Errorf("config: verification share of %s is missing", id)
+		}
+	}
+	if _, ok := r.VerificationShares.Points[r.ID]; !ok {
+		return errors.New("config: no verification share for this party")
+	}
+	if r.Threshold < 0 || r.Threshold >= len(r.VerificationShares.Points) {
+		return fmt.Errorf("config: threshold %d is invalid", r.Threshold)
+	}
+	return nil
+}
+
 // Curve returns the Elliptic Curve Group associated with this result.
 func (r *Config) Curve() curve.Curve {
 	return r.PublicKey.Curve()
@@ -123,6 +152,34 @@ type TaprootConfig struct {
 	//
 	// This will later be used to verify the integrity of the signing protocol.
 	VerificationShares map[party.ID]*curve.Secp256k1Point
+}
+
+// Validate checks that the config contains everything a protocol run relies on.
+func (r *TaprootConfig) Validate() error {
+	if r == nil {
+		return errors.New("config is nil")
+	}
+	if r.PrivateShare == nil || r.PrivateShare.IsZero() {
+		return errors.New("config: private share is missing or zero")
+	}
+	if len(r.PublicKey) != 32 {
+		return errors.New("config: public key must be 32 bytes long")
+	}
+	if len(r.VerificationShares) == 0 {
+		return errors.New("config: verification shares are missing")
+	}
+	for id, share := range r.VerificationShares {
+		if share == nil {
+			return fmt.Errorf("config: verification share of %s is missing", id)
+		}
+	}
+	if _, ok := r.VerificationShares[r.ID]; !ok {
+		return errors.New("config: no verification share for this party")
+	}
+	if r.Threshold < 0 || r.Threshold >= len(r.VerificationShares) {
+		return fmt.Errorf("config: threshold %d is invalid", r.Threshold)
+	}
+	return nil
 }
 
 // Clone creates a deep clone of this struct, and all the values contained inside
